@@ -4,7 +4,7 @@ record what was reported, restore /repo. Writes seeded/RESULTS.json and a 'detec
 import json, os, re, subprocess, sys, glob
 ROOT = "/verif"; out = {}
 assert subprocess.run("git -C /repo diff --quiet", shell=True).returncode == 0, "/repo has uncommitted changes"
-ids = sys.argv[1:] or sorted(os.path.basename(d) for d in glob.glob(ROOT + "/seeded/C*-mut*"))
+ids = sys.argv[1:] or sorted(os.path.basename(d) for d in glob.glob(ROOT + "/seeded/C*-*mut*"))
 for sid in ids:
     d = os.path.join(ROOT, "seeded", sid); prop = sid.split("-")[0]
     try:
